@@ -51,6 +51,10 @@ EXPLANATION += (
     ' Round 7: no jump out of a finally block discards a failure (R-IDIOM/jump-in-finally, package-wide).'
 )
 
+EXPLANATION += (
+    " Round 11: no handler around a dispatch absorbs the drain's error (R-HANDLER/dispatch-failure)."
+)
+
 RULE_TEXT = (
     "one obligation per (rule, construct): spawn site x collection, exit-"
     "code test, removal site, handler, (stage, output write, spawn point), "
